@@ -170,6 +170,25 @@ func (ch c17) Run(c *core.Ctx) {
 	if c.Batch == 0 {
 		c.Count("exhaustive_parts", 1)
 	}
+	// outermost decorations with an empty value over inner non-empty ones
+	for i := c.Batch; i < nrand/20; i += nb {
+		idx = 40000000 + i
+		if !c.Begin(idx) || c.NViol() >= 10 {
+			continue
+		}
+		rng := core.NewRng(c.Seed, "C17o", 0, i)
+		k := core.Pick(rng, []byte{'h', 'd', 'n', 's'})
+		spec := &hs.ErrSpec{Base: "base " + rng.Ident(8)}
+		spec.Wraps = append(spec.Wraps, c17wrap(k, rng, 0))
+		if k == 's' {
+			spec.Wraps[0].S = "PANIC"
+		}
+		for d := rng.Intn(3); d > 0; d-- {
+			spec.Wraps = append(spec.Wraps, c17wrap(core.Pick(rng, []byte{'c', 'w', 'o'}), rng, 0))
+		}
+		spec.Wraps = append(spec.Wraps, hs.Wrap{K: k, S: ""})
+		runSpec(spec, i)
+	}
 	for i := c.Batch; i < nrand; i += nb {
 		idx = 10000000 + i
 		if !c.Begin(idx) || c.NViol() >= 10 {
@@ -253,6 +272,22 @@ func (ch c17) compare(c *core.Ctx, spec *hs.ErrSpec, em pg.BMsg, cs map[string]a
 	nt := len(spec.Wraps) >= 2 && (rep || seen['w'] > 0 || seen['o'] > 0 || seen['n'] > 0)
 	c.Eval(c17sig(spec)+fmt.Sprint(cs["context"]), nt)
 	c.Count("error_responses_compared", 1)
+	// empty outermost values: the field is absent or present-but-empty, never an inner value
+	emptyOK := map[byte]bool{}
+	for _, k := range []byte{'H', 'D', 'n'} {
+		if v, ok := want[k]; ok && v == "" {
+			emptyOK[k] = true
+			delete(want, k)
+			if g, gok := em.Err[k]; gok {
+				if g != "" {
+					c.Violate("field-value", fmt.Sprintf("field %c shows an inner value although the outermost decoration is empty", k), fmt.Sprintf("spec %s: field %c = %q", spec, k, trim(g, 100)), cs)
+					return
+				}
+				delete(em.Err, k)
+			}
+			c.Count("empty_outermost_decorations", 1)
+		}
+	}
 	if seen['o'] > 0 {
 		c.Count("with_source", 1)
 	}
